@@ -1,0 +1,25 @@
+//go:build verif
+
+package app
+
+import (
+	"github.com/pokt-network/pocket-core/codec"
+	appsKeeper "github.com/pokt-network/pocket-core/x/apps/keeper"
+	"github.com/pokt-network/pocket-core/x/auth"
+	govKeeper "github.com/pokt-network/pocket-core/x/gov/keeper"
+	nodesKeeper "github.com/pokt-network/pocket-core/x/nodes/keeper"
+	pocketKeeper "github.com/pokt-network/pocket-core/x/pocketcore/keeper"
+)
+
+// Read-only accessors for the verification harness (build tag verif only).
+
+func (app *PocketCoreApp) VerifAccountKeeper() auth.Keeper        { return app.accountKeeper }
+func (app *PocketCoreApp) VerifNodesKeeper() nodesKeeper.Keeper   { return app.nodesKeeper }
+func (app *PocketCoreApp) VerifAppsKeeper() appsKeeper.Keeper     { return app.appsKeeper }
+func (app *PocketCoreApp) VerifGovKeeper() govKeeper.Keeper       { return app.govKeeper }
+func (app *PocketCoreApp) VerifPocketKeeper() pocketKeeper.Keeper { return app.pocketKeeper }
+func (app *PocketCoreApp) VerifCodec() *codec.Codec               { return app.cdc }
+
+// VerifResetCodec drops the package-level codec so that a fresh app instance in the same process
+// starts from a clean codec (as a restarted node would).
+func VerifResetCodec() { cdc = nil }
